@@ -19,6 +19,7 @@ def parseAction (s : String) : Option Action :=
   | ["c", v] => do some (.call (← v.toNat?))
   | ["f", v] => do some (.getf (← v.toNat?))
   | ["b", v] => do some (.bump (← v.toNat?))
+  | ["rs", v] => do some (.readRoot (← v.toNat?))
   | ["g", "i"] => some (.g .int)
   | ["g", "f"] => some (.g .float)
   | ["g", "s"] => some (.g .string)
